@@ -725,3 +725,26 @@ differential run against the --features f32 build.  Axioms: Coq's Reals axioms a
         ("C19_sum_two_formats", "a_sum_two_formats", "sum(k) in two formats"),
         ("C19_theta_le_gamma", "theta_le_gamma", "(1+u)^k - 1 <= k u / (1 - k u)"),
     ])
+
+TABLE["C14exact"] = dict(
+    title="(end to end) each iteration steps every parameter by -lr times the exact gradient of the current loss",
+    imports=CONC + """
+From Corgi Require Import Model.RealScalar Proofs.FwdCode Proofs.HistoryVC Proofs.C01Gen Proofs.CodeSupport3 Proofs.HistoryPre3
+     Proofs.C01History3 Proofs.TrainLoop Proofs.C01Reach Proofs.TrainExact Proofs.TrainExactR.
+Import ListNotations.""",
+    intro="""The composition of C14 (training loop bookkeeping), C13 (update) and C01 (exactness).  [ready s]: the loop
+invariant of Props/C14.v; [reachable_ok_all O p s]: s is reached by a program whose instructions satisfy the shape
+side conditions of Props/C01full.v; [layers_ok_all]: the batch has a shape the layers accept.  For EVERY tangent
+direction tau on the parameters,
+    sum over parameters p of <theta_p - theta'_p, tau_p>  =  lr * <ones, dual-number tangent of the cost node along tau>
+i.e. theta' = theta - lr * grad(summed cost), the cost being that of the CURRENT parameters on the CURRENT batch
+(its value is the returned loss), whatever the store still contains from earlier iterations (the generalised
+identity [C14_backward_exact_reach] needs only the slots of the reachable leaves to be empty, which [ready]
+guarantees); and the state is [ready] again.  Dense and convolutional layers, every activation, both costs.""",
+    items=[
+        ("C14_train_step_exact", "train_step_exact", "one iteration from a ready, good state"),
+        ("C14_train_step_exact_history", "train_step_exact_history", "the same for the state reached by any program history"),
+        ("C14_train_step_exact_reals", "train_step_exact_R", "over the real numbers, no scalar hypothesis"),
+        ("C14_backward_exact_reach", "backward_exact_reach", "reverse = forward when only the reachable leaves' slots are empty"),
+        ("C14_backward_table", "backward_table_all", "the table form: no assumption on the gradient slots at all"),
+    ])
